@@ -195,7 +195,7 @@ def segs_for_row(rng, row, names):
             if rng.chance(1, 2):            # present: any value (now and then the parameter's own name)
                 out.append(s[1] if rng.chance(1, 5) else word(rng, names))
         elif s[0] == "w":
-            out += [word(rng, names) for _ in range(rng.range(0, 2))]
+            out += [word(rng, names) for _ in range(rng.weighted([(3, 0), (3, 1), (2, 2), (2, 3), (1, 5)]))]   # also more segments than the route has elements
     return out
 
 
